@@ -203,6 +203,10 @@ type solverSpec struct {
 var solverSpecs = []solverSpec{
 	{"z3-new-5.1.0", func(f string, t int) []string { return []string{"z3-new", fmt.Sprintf("-T:%d", t), f} }},
 	{"z3-4.8.12", func(f string, t int) []string { return []string{"z3", fmt.Sprintf("-T:%d", t), f} }},
+	// same solver, legacy simplex arithmetic: decides some quantified array/arithmetic goals the default core times out on
+	{"z3-new-5.1.0/arith.solver=2", func(f string, t int) []string {
+		return []string{"z3-new", fmt.Sprintf("-T:%d", t), "smt.arith.solver=2", f}
+	}},
 	{"cvc5-1.0", func(f string, t int) []string {
 		return []string{"cvc5", "--incremental", fmt.Sprintf("--tlimit=%d", t*1000), f}
 	}},
@@ -224,6 +228,60 @@ func checkSolvers() {
 
 // runPortfolio races the installed solvers on one query. wantModel: the query contains
 // (get-model) after (check-sat). First definite answer (unsat/sat) wins.
+// runRetry: sequential second chance with several random seeds of the z3 configurations in parallel.
+func runRetry(dir, name, query string, timeoutS int) SolverResult {
+	checkSolvers()
+	file := filepath.Join(dir, name+".smt2")
+	if err := os.WriteFile(file, []byte(query), 0o644); err != nil {
+		return SolverResult{Result: "error", Output: err.Error()}
+	}
+	type cfg struct {
+		name string
+		argv []string
+	}
+	var cfgs []cfg
+	for _, seed := range []int{0, 1, 2, 3} {
+		cfgs = append(cfgs, cfg{fmt.Sprintf("z3-new-5.1.0/seed%d", seed), []string{"z3-new", fmt.Sprintf("-T:%d", timeoutS), fmt.Sprintf("smt.random_seed=%d", seed), file}})
+		cfgs = append(cfgs, cfg{fmt.Sprintf("z3-new-5.1.0/arith.solver=2/seed%d", seed), []string{"z3-new", fmt.Sprintf("-T:%d", timeoutS), "smt.arith.solver=2", fmt.Sprintf("smt.random_seed=%d", seed), file}})
+	}
+	cfgs = append(cfgs, cfg{"z3-4.8.12", []string{"z3", fmt.Sprintf("-T:%d", timeoutS), file}})
+	ctx, cancel := context.WithCancel(context.Background())
+	defer cancel()
+	ch := make(chan SolverResult, len(cfgs))
+	for _, c := range cfgs {
+		go func(c cfg) {
+			start := time.Now()
+			cctx, ccancel := context.WithTimeout(ctx, time.Duration(timeoutS+2)*time.Second)
+			defer ccancel()
+			cmd := exec.CommandContext(cctx, c.argv[0], c.argv[1:]...)
+			var out bytes.Buffer
+			cmd.Stdout = &out
+			cmd.Stderr = &out
+			_ = cmd.Run()
+			o := out.String()
+			first := strings.TrimSpace(strings.SplitN(o, "\n", 2)[0])
+			r := SolverResult{Solver: c.name, Ms: time.Since(start).Milliseconds(), Output: o, Result: "unknown"}
+			if first == "unsat" || first == "sat" {
+				r.Result = first
+				if i := strings.Index(o, "\n"); i >= 0 && first == "sat" {
+					r.Model = o[i+1:]
+				}
+			}
+			ch <- r
+		}(c)
+	}
+	best := SolverResult{Result: "unknown"}
+	for range cfgs {
+		r := <-ch
+		if r.Result == "unsat" || r.Result == "sat" {
+			cancel()
+			return r
+		}
+		best = r
+	}
+	return best
+}
+
 func runPortfolio(dir, name, query string, timeoutS int, useCvc5 bool) SolverResult {
 	checkSolvers()
 	file := filepath.Join(dir, name+".smt2")
